@@ -227,6 +227,44 @@ func checkDerive(ctx *pbt.Ctx, c Derive) error {
 		a3, e3 := bscript.NewAddressFromPublicKey(pub, c.Mainnet)
 		ders = append(ders, der{"NewAddressFromPublicKey", a3, e3})
 	}
+	// the same hash / key on the other network, in the same process: the answer may not depend
+	// on what was asked before
+	{
+		otherVer := byte(0x6f)
+		if !c.Mainnet {
+			otherVer = 0x00
+		}
+		wantOther := ref.B58CheckEncode(otherVer, h)
+		type od struct {
+			name string
+			a    *bscript.Address
+			err  error
+		}
+		var others []od
+		o1, oe1 := bscript.NewAddressFromPublicKeyHash(append([]byte{}, h...), !c.Mainnet)
+		others = append(others, od{"NewAddressFromPublicKeyHash", o1, oe1})
+		if key != nil {
+			o2, oe2 := bscript.NewAddressFromPublicKeyString(hex.EncodeToString(key), !c.Mainnet)
+			others = append(others, od{"NewAddressFromPublicKeyString", o2, oe2})
+		}
+		if pub != nil {
+			o3, oe3 := bscript.NewAddressFromPublicKey(pub, !c.Mainnet)
+			others = append(others, od{"NewAddressFromPublicKey", o3, oe3})
+		}
+		for _, o := range others {
+			if o.err != nil || o.a == nil {
+				return fmt.Errorf("%s failed for %s %x on the other network: %v", o.name, c.Kind, c.Data, o.err)
+			}
+			if o.a.AddressString != wantOther || o.a.PublicKeyHash != hex.EncodeToString(h) {
+				return fmt.Errorf("%s(%s %x, mainnet=%v), asked right after mainnet=%v, = %q / %s; Base58Check(%02x || hash160) is %q", o.name, c.Kind, c.Data, !c.Mainnet, c.Mainnet, o.a.AddressString, o.a.PublicKeyHash, otherVer, wantOther)
+			}
+		}
+		// and once more on the first network
+		if pub != nil {
+			a4, e4 := bscript.NewAddressFromPublicKey(pub, c.Mainnet)
+			ders = append(ders, der{"NewAddressFromPublicKey (asked again)", a4, e4})
+		}
+	}
 	for _, d := range ders {
 		if d.err != nil || d.a == nil {
 			return fmt.Errorf("%s failed for %s %x: %v", d.name, c.Kind, c.Data, d.err)
@@ -434,9 +472,15 @@ type Str struct {
 	Base string `json:"base"` // valid address it was derived from (informational; "" if constructed)
 	Op   string `json:"op"`
 	S    string `json:"s"`
+	// Raw, when set, is the candidate as raw bytes (strings that are not valid UTF-8 cannot
+	// travel through a JSON replay file as text); it takes precedence over S.
+	Raw pbt.Hex `json:"raw,omitempty"`
 }
 
 func checkStr(ctx *pbt.Ctx, c Str) error {
+	if len(c.Raw) > 0 {
+		c.S = string(c.Raw)
+	}
 	if strings.HasPrefix(c.S, "bitcoin-script:") {
 		// ValidateAddress documents BIP276 text as a second accepted form (property C17).
 		ctx.Discard("bip276 form")
@@ -470,6 +514,14 @@ func baseAddr(h []byte, mainnet bool) string {
 // neighbourhood yields the complete edit-distance-1 neighbourhood of a valid
 // address plus the constructed version / length / alphabet classes.
 func neighbourhood(h []byte, mainnet bool, yield func(Str)) {
+	{
+		base := baseAddr(h, mainnet)
+		for i := range base {
+			b := []byte(base)
+			b[i] |= 0x80
+			yield(Str{Base: base, Op: "highbit", Raw: b})
+		}
+	}
 	base := baseAddr(h, mainnet)
 	ver := byte(0x00)
 	if !mainnet {
@@ -530,12 +582,27 @@ func genStr(t *rapid.T) Str {
 	}
 	pos := func(label string, max int) int { return rapid.IntRange(0, max).Draw(t, label) }
 	ops := []string{"same", "subst", "subst", "subst_nonalpha", "transpose", "insert", "insert_nonalpha", "delete", "delete_lead", "insert_lead1",
-		"version", "version_keepsum", "length", "truncate", "extend", "bitflip", "bitflip", "subst2", "random58", "ones", "pad", "case", "double", "hex"}
+		"version", "version_keepsum", "length", "truncate", "extend", "bitflip", "bitflip", "subst2", "random58", "ones", "pad", "case", "double", "hex", "highbit", "rawbyte"}
 	op := rapid.SampledFrom(ops).Draw(t, "op")
 	c := Str{Base: base, Op: op}
 	switch op {
 	case "same":
 		c.S = base
+	case "highbit":
+		// the same characters with bit 7 set on one of them: not a Base58 digit, not even ASCII
+		b := []byte(base)
+		b[pos("pos", len(b)-1)] |= 0x80
+		c.Raw = b
+	case "rawbyte":
+		b := []byte(base)
+		i := pos("pos", len(b))
+		x := byte(rapid.IntRange(0x80, 0xff).Draw(t, "rawbyte"))
+		if i == len(b) || rapid.Bool().Draw(t, "rawins") {
+			b = append(b[:i:i], append([]byte{x}, b[i:]...)...)
+		} else {
+			b[i] = x
+		}
+		c.Raw = b
 	case "subst":
 		i := pos("pos", len(base)-1)
 		c.S = base[:i] + alpha("chr") + base[i+1:]
